@@ -336,6 +336,8 @@ func main() {
 	}})
 	states += res.States
 	trans += res.Transitions
+	// element types and sizes: zero-size, one byte, larger than a page, pointers
+	r.Set("element_type_calls", allTypedSorted(r))
 	// Large-size family: up to 300 values with duplicates in three arrival orders and two sort
 	// orders against a sorted-slice model (positions returned by Add/Index/Remove, Get, Contains)
 	famCalls := 0
